@@ -171,6 +171,14 @@ CHECKS["C11"] = dict(
    note=COMMON_NOTE + "Oracles: --exclude regular expressions (re.fullmatch), rattr's identifier pattern (real is_name per string). How a declared entry is inlined into callers is the result-generation model's (C03); nested functions and methods other than static methods are outside (rattr does not analyse them).",
    design_ref="DESIGN.md section 6 C11, section 11")
 
+CHECKS["C08"] = dict(
+   technique="Coq: theorems about the call-target function over arbitrary scope chains (bare names follow the chain innermost-first, own-scope parameters shadow, non-import receivers give no target, special callees give no target, only function / class targets are expanded), kernel-checked refutation for parameters registered with a plain add; specification spec/Scoping.v judging real end-to-end inlining per cell of the symbol kind x call form x shadowing matrix; FunctionAnalyser model correspondence on every calling function",
+   text=("C08_bare_call_follows_scope_chain, C08_parameter_in_own_scope_shadows, C08_variable_or_builtin_target_never_inlined, C08_method_on_non_import_has_no_target (whatever the module level defines), C08_special_callee_has_no_target - for every scope chain and name; "
+         "REFUTED: C08_parameter_named_like_function_refuted (KF_C08_1: parameters are added with a plain Context.add). Whether rattr's decision equals Python's is decided per call site by the Coq specification expected_inline on the real results of a module holding one calling function per matrix cell "
+         "(wrong-callee detection through distinctive attribute names: same-named function / class in a followed import, re-bound function); a deviation is a known finding only for sites whose callee base is a parameter spelled like a module-level name and whose function passes the FunctionAnalyser correspondence."),
+   note=FA_NOTE + " The specification reads the property's statement: parameters of the function and of enclosing lambdas shadow; locals are not judged; definitions precede callers in the matrix module.",
+   design_ref="DESIGN.md section 6 C08, section 11")
+
 NOT_YET = {}
 
 def main():
